@@ -4,8 +4,8 @@
 set -e
 PATCH="$1"; shift
 [ -d /tmp/mrepo ] || git -C /repo worktree add -q --detach /tmp/mrepo HEAD
-git -C /tmp/mrepo checkout -q --detach "$(git -C /repo rev-parse HEAD)"
 git -C /tmp/mrepo checkout -q -- . && git -C /tmp/mrepo clean -fdq -e target
+git -C /tmp/mrepo checkout -q --detach "$(git -C /repo rev-parse HEAD)"
 git -C /tmp/mrepo apply "$PATCH"
 [ -d /tmp/vmut ] || git -C /verif worktree add -q --detach /tmp/vmut HEAD
 git -C /tmp/vmut checkout -q -- .
